@@ -1117,3 +1117,7 @@ BOC = "core_codemods/break_or_continue_out_of_loop.py"
 add("C02", "emptied-if-statement-removed", BOC,
     [("    def leave_Else(", "    def leave_If(self, original_node, updated_node):\n        if not updated_node.body.body and updated_node.orelse is None:\n            return cst.RemovalSentinel.REMOVE\n        return updated_node\n\n    def leave_Else(")],
     "fire", "R-REMOVAL-KINDS", "leave_If")
+ICM = "codemodder/codemods/imported_call_modifier.py"
+add("C13", "definitions-without-included-line-not-traversed", ICM,
+    [("    def leave_Call(", "    def visit_FunctionDef(self, node):\n        pos = self.node_position(node)\n        return not self.line_include or any(pos.start.line <= n <= pos.end.line for n in self.line_include)\n\n    def leave_Call(")],
+    "fire", "R-NO-LINE-PRUNE", "visit_FunctionDef")
